@@ -27,6 +27,10 @@ DECOY = 0.0        # every observation runs in fresh interpreters with their own
 WORKER = os.path.join(common.VERIF, "harness", "c19_worker.py")
 
 
+NAMES = 0.0          # this campaign relies on the names it generates
+FREE_INPUTS = 0.0
+
+
 def budget(tier):
     return 150 if tier == "quick" else 1500
 
